@@ -9,6 +9,14 @@ B2  the fibre configurations and every ordering TLC emits are realised with real
     crossing and a real Edfa; each fibre crossing's per-channel loss is compared with the budget the spec emitted
     (+/-3 udB), and the crossings are recorded.  The per-frequency tables are written as (frequency, value) pairs listed
     by increasing frequency (F4) and by increasing wavelength (F3); the spec interpolates on the SET of pairs.
+    The CD every span with a single-value dispersion adds is compared with dispersion x length emitted by the spec
+    (CdFromConfig) - dispersion from the library (F1) or written in the element, the fibre parameters being given at the
+    default reference, at a reference wavelength of 1590 nm (F2) or at a reference frequency of 192 THz (F4); F3 has a
+    per-frequency dispersion table (its CD is only required to accumulate linearly).
+    Lumped-loss positions: the spec's probe fibre gets one more lumped loss at the span start, inside (off / on a point of
+    the solver grid), next to the end and AT the span end; a configuration the constructor refuses is judged against the
+    model's SpanValid (RefusedOnlyInvalid), one it accepts must lose the emitted budget with Raman off (LossBudget) and on
+    (LowPower) and exactly the extra loss more than the base fibre (LumpedOnce; perturbative and numerical method).
     NoMemory histories: every fibre is crossed by a sequence of spectral informations (same end channels and count,
     other inner channels, other powers) with Raman computation off and on; each later crossing is compared with the
     same crossing on a fresh fibre.
@@ -17,6 +25,7 @@ B3  the recorded crossings (B2 orderings, and every Fiber / Roadm / Edfa / Multi
     LatencyLinear, PmdQuadrature, PdlQuadrature against each element's own contribution measured by crossing it ALONE
     from a zero state, ContribFromConfig (a span's latency / PMD^2 follow from ITS OWN length: length / (c / n),
     pmd_coef^2 x length - also for the spans the auto-design cuts out of a long link: CORONET and a 390 km test link),
+    CdFromConfig (single-value dispersion without slope: the span adds dispersion x length to every channel),
     NoMemory, ElementContribFromConfig (a ROADM's PMD / PDL: the crossed path's impairment profile where it defines the
     quantity, else the ROADM-level value, each on its own; the B2 ROADM has profiles defining only one of the two), and
     OrderIndependent over all orderings of an assembly.  Quick-tier LowPower: with Raman on (perturbative) at -60 dBm
@@ -39,11 +48,12 @@ import numpy as np
 from harness import tlc
 from harness import line_util as L
 from harness.core import Machinery
-from harness.gnpy_util import EX, TD, udb
+from harness.gnpy_util import EX, TD, NONE, udb
 from harness.record import Recording
 
 VARIETY = {'F1': 'SSMF', 'F2': 'NZDF', 'F3': 'LOF', 'F4': 'SSMF'}
 PMD_COEF = {'F2': 2.0e-15, 'F4': 0.8e-15}          # element-level PMD coefficients (the others use the library's)
+LIBRARY_DISPERSION = {'F1'}                        # fibres that leave the dispersion to the library entry of their type
 
 
 def cfg_text(assemblies, emit=False):
@@ -68,7 +78,32 @@ def fiber_json(fid, sp):
         params['lumped_losses'] = [{'position': x['km'], 'loss': x['loss'] / 1e6} for x in sp['lumps']]
     if fid in PMD_COEF:
         params['pmd_coef'] = PMD_COEF[fid]
-    return {'uid': fid, 'type': 'Fiber', 'type_variety': VARIETY[fid], 'params': params}
+    # dispersion (spec: 1e-3 ps/nm/km -> s/m/m): a single value written in the element, or left to the library entry of the
+    # type (LIBRARY_DISPERSION: the spec's figure is then the library's), or a per-frequency table
+    if sp['disp'] == NONE:
+        params['dispersion_per_frequency'] = {'value': [x['a'] * 1e-9 for x in sp['dispTab']],
+                                              'frequency': [x['f'] * 1e9 for x in sp['dispTab']]}
+    elif fid not in LIBRARY_DISPERSION:
+        params['dispersion'] = sp['disp'] * 1e-9
+    # the reference at which the fibre parameters are given: not written (1550 nm), a wavelength, or a frequency
+    if sp['ref']['kind'] == 'wavelength':
+        params['ref_wavelength'] = sp['ref']['v'] * 1e-9
+    elif sp['ref']['kind'] == 'frequency':
+        params['ref_frequency'] = sp['ref']['v'] * 1e9
+    return {'uid': fid, 'type': 'Fiber', 'type_variety': VARIETY.get(fid, 'SSMF'), 'params': params}
+
+
+def check_library_dispersion(conf):
+    """the spec's dispersion of a fibre that leaves it to the library must be the shipped library's figure for its type"""
+    lib = {e['type_variety']: e['dispersion'] for e in L.base_eqpt()['Fiber']}
+    for fid in LIBRARY_DISPERSION:
+        if abs(lib[VARIETY[fid]] - conf['span'][fid]['disp'] * 1e-9) > 1e-12:
+            raise Machinery(f'{fid}: the model says {conf["span"][fid]["disp"]}, the library {lib[VARIETY[fid]]} for {VARIETY[fid]}')
+
+
+def cd_features(sp):
+    return ('dispersion table' if sp['disp'] == NONE else 'single-value dispersion') + \
+        {'default': '', 'wavelength': '|parameters at a reference wavelength', 'frequency': '|parameters at a reference frequency'}[sp['ref']['kind']]
 
 
 def features(sp):
@@ -125,6 +160,7 @@ def replay_orders(conf, orders, chk):
     contrib = L.Contributions()
     groups = {}
     worst = 0.0
+    worst_cd = 0
     for js in orders:
         order = js['order']
         chk.case('>'.join(order), nontrivial=True)
@@ -153,6 +189,17 @@ def replay_orders(conf, orders, chk):
                                        code_loss_udb=[udb(x) for x in loss], position_in_path=k))
                 else:
                     worst = max(worst, dev)
+                if js['cdAdd'][k]:
+                    # the CD this span adds, against dispersion x length emitted by the specification from the configuration
+                    added = ev['post']['chromatic_dispersion'] - ev['pre']['chromatic_dispersion']
+                    dev = max(abs(L.cd_units(x) - b) for x, b in zip(added, js['cdAdd'][k]))
+                    if dev > 3:
+                        ok = False
+                        chk.violation(f'B2|span CD is dispersion x length|{cd_features(conf["span"][e])}',
+                                      dict(order=order, step=k, fibre=conf['span'][e], spec_cd_added=js['cdAdd'][k],
+                                           code_cd_added=[L.cd_units(x) for x in added], unit='1e-3 ps/nm'))
+                    else:
+                        worst_cd = max(worst_cd, dev)
                 evs.append(L.fiber_event(ev, False, contrib=contrib))
             else:
                 evs.append(L.acc_event(ev, contrib=contrib))
@@ -184,6 +231,8 @@ def replay_orders(conf, orders, chk):
     chk.cov['b2_assemblies'] = len(groups)
     chk.cov['b2_loss_worst_deviation_udb'] = worst
     chk.cov['b2_loss_tolerance_udb'] = 3
+    chk.cov['b2_span_cd_worst_deviation_1e-3ps/nm'] = worst_cd
+    chk.cov['b2_span_cd_tolerance_1e-3ps/nm'] = 3
     chk.cov['b2_contributions_measured_alone'] = contrib.measured
     return [{'name': f'B2 assembly {g}', 'ev': ev} for g, ev in groups.items()]
 
@@ -295,6 +344,96 @@ def low_power_traces(conf, orders, chk):
         SimParams.set_params({})
     chk.cov['lowpower_quick_worst_deviation_udb'] = worst
     chk.cov['lowpower_quick_tolerance_udb'] = 2000
+    return traces
+
+
+def lumped_position_traces(conf, chk):
+    """LowPower and LumpedOnce in the quick tier over the POSITION of a lumped loss: the probe fibre of the specification
+    (short, one lumped loss) gets one more lumped loss at each position of the emitted grid - span start, inside off / on a
+    point of the solver grid, next to the end, span end.  A configuration the constructor refuses gives a `Refused` event
+    (judged against the model's SpanValid); one it ACCEPTS is a fibre: with Raman computation on, at -60 dBm per channel, it
+    loses the emitted budget (LowPower, exact methods) and exactly `extra` more than the base fibre (LumpedOnce, every
+    method); with Raman computation off it loses the budget (LossBudget)"""
+    from gnpy.core.info import create_arbitrary_spectral_information
+    from gnpy.core.parameters import SimParams
+    from gnpy.tools.json_io import load_equipments_and_configs, network_from_json
+    eq = load_equipments_and_configs(EX / 'eqpt_config.json', [], [])
+    pr = conf['probes']
+    f = np.array(conf['chanF'], dtype=float) * 1e9
+
+    def build(sp, cls_name):
+        el = fiber_json('probe', sp)
+        if cls_name == 'RamanFiber':
+            el.update({'type': 'RamanFiber', 'operational': {'temperature': 283, 'raman_pumps': []}})
+        el = next(iter(network_from_json({'elements': [el], 'connections': []}, eq).nodes()))
+        el.ref_pch_in_dbm = 0.0
+        return el
+
+    def si():
+        return create_arbitrary_spectral_information(frequency=f, pch=1e-9, baud_rate=32e9, slot_width=50e9, tx_osnr=40,
+                                                     tx_power=1e-9, roll_off=0.15)
+
+    def cross(el):
+        """(recorded crossing, per-channel loss in dB) of a -60 dBm per channel comb"""
+        with Recording(op_args=True) as rec:
+            el(si())
+        ev = rec.events[-1]
+        return ev, L.dbm(ev['pre']['pch']) - L.dbm(ev['post']['pch'])
+
+    def pairs(a, b):
+        return [{'a': udb(x), 'b': (y if isinstance(y, int) else udb(y))} for x, y in zip(a, b)]
+    traces = []
+    refused = accepted = 0
+    worst = {'LowPower': 0.0, 'LumpedOnce': 0.0}
+    settings = [dict(s, flag=True) for s in sorted(pr['settings'], key=lambda s: s['method'])] + \
+        [dict(method='perturbative', order=2, step=2500, exact=True, flag=False)]
+    try:
+        for s_ in settings:
+            SimParams.set_params({'raman_params': {'flag': s_['flag'], 'method': s_['method'], 'order': s_['order'],
+                                                   'solver_spatial_resolution': s_['step'], 'result_spatial_resolution': 10e3},
+                                  'nli_params': {'method': 'gn_model_analytic'}})
+            tag = f"{s_['method']}/{s_['order']}/{s_['step']}m" if s_['flag'] else 'raman-off'
+            for cls_name in ('Fiber', 'RamanFiber'):
+                try:
+                    base = cross(build(pr['base']['span'], cls_name))[1]
+                except Exception as ex:                                      # noqa
+                    chk.violation(f'lumped position|{cls_name}|base fibre|{tag}|exception|{type(ex).__name__}',
+                                  dict(span=pr['base']['span'], exception=traceback.format_exc()[-1200:]))
+                    continue
+                for at in sorted(pr['at'], key=lambda a: a['km']):
+                    where = 'span-start' if at['km'] == 0 else 'span-end' if at['km'] == at['span']['lenKm'] else 'inside'
+                    what = f'{cls_name}|lumped-loss-at-{where}'
+                    chk.case(f'lumped position|{cls_name}|{at["km"]} km|{tag}', nontrivial=True)
+                    name = f'lumped position {cls_name} {at["km"]} km {tag}'
+                    try:
+                        el = build(at['span'], cls_name)
+                    except Exception as ex:                                  # noqa  the constructor refuses the configuration
+                        refused += 1
+                        traces.append({'name': name, 'ev': [{'k': 'Refused', 'what': what, 'valid': 1 if at['valid'] else 0,
+                                                             'exception': type(ex).__name__}]})
+                        continue
+                    accepted += 1
+                    try:
+                        ev, loss = cross(el)
+                    except Exception as ex:                                  # noqa
+                        chk.violation(f'lumped position|{what}|{tag}|exception|{type(ex).__name__}',
+                                      dict(span=at['span'], exception=traceback.format_exc()[-1200:]))
+                        continue
+                    if not s_['flag']:
+                        traces.append({'name': name, 'ev': [dict(L.fiber_event(ev, False, with_acc=False), what=what)]})
+                        continue
+                    evs = [{'k': 'LumpedOnce', 'what': f'{what} {tag}', 'lumped': pr['extra'], 'ch': pairs(loss, base)}]
+                    worst['LumpedOnce'] = max(worst['LumpedOnce'], float(np.max(np.abs(loss - base - pr['extra'] / 1e6))))
+                    if s_['exact']:
+                        evs.append({'k': 'LowPower', 'what': f'{what} {tag}', 'ch': pairs(loss, at['budget'])})
+                        worst['LowPower'] = max(worst['LowPower'], float(np.max(np.abs(loss - np.array(at['budget']) / 1e6))))
+                    traces.append({'name': name, 'ev': evs})
+    finally:
+        SimParams.set_params({})
+    chk.cov['lumped_position_grid_km'] = sorted(a['km'] for a in pr['at'])
+    chk.cov['lumped_position_refused_accepted'] = [refused, accepted]
+    chk.cov['lumped_position_worst_deviation_db'] = {k: float(f'{v:.3g}') for k, v in worst.items()}
+    chk.cov['lumped_position_tolerance_db'] = 0.002
     return traces
 
 
@@ -607,10 +746,12 @@ def run(chk):
     if len(conf) != 1 or not orders or not settings:
         raise Machinery(f'emission incomplete: {len(conf)} configurations, {len(orders)} orderings, {len(settings)} settings')
     lap('tlc')
+    check_library_dispersion(conf[0])
     b2_traces = replay_orders(conf[0], orders, chk)
     lap('b2_replay')
     mem = fibre_memory_traces(conf[0], chk)
-    b2_traces = b2_traces + mem + low_power_traces(conf[0], orders, chk) + methods_agree_quick(conf[0], chk)
+    b2_traces = b2_traces + mem + low_power_traces(conf[0], orders, chk) + lumped_position_traces(conf[0], chk) + \
+        methods_agree_quick(conf[0], chk)
     report(chk, b2_traces, L.judge(chk, b2_traces, 'c05-trace-b2'), 'B2trace')
     lap('b2_judge')
     # ---- B3
@@ -636,8 +777,12 @@ def run(chk):
     chk.assume("an element's own contribution = what a deep copy of it leaves in a zero-state spectral information with the "
                'same channels (measured once per element and channel plan)')
     chk.assume('ContribFromConfig: group index of the fibre model (FiberParams._n1 = 1.468) and c = 299792458 m/s convert a '
-               'configured length into latency; CD of a span is not restated from configuration (frequency-dependent '
-               'beta2 / beta3 model), it is only required to accumulate linearly and position-independently')
+               'configured length into latency; CD of a span is restated from configuration (dispersion x length on every '
+               'channel) only for a single-value dispersion without slope; with a dispersion table or a slope '
+               '(frequency-dependent beta2 / beta3 model) it is only required to accumulate linearly and position-independently')
+    chk.assume('a lumped loss at 0 km or at the span end is outside the quantified fibres (the element documents "boundaries '
+               'excluded"): refusing it is right, accepting it is not judged as such - but a fibre that was accepted must '
+               'apply every lumped loss of its configuration once, Raman computation off and on')
     chk.assume('per-frequency loss coefficient: the configured table is interpolated linearly at the channel frequency by '
                'the harness for B3 (numpy.interp) and by the specification itself for B2 (exact on the model grid)')
     chk.assume('Raman clauses are sampled (2 shipped configurations x the emitted settings grid, 12 channels), solver '
@@ -728,7 +873,13 @@ def _mut_roadm_fallback_merged():
     E.Roadm.get_impairment = get_impairment
 
 
-MUTANTS = {'connector_dropped': _mut_connector_dropped, 'cd_assigned': _mut_cd_assigned, 'pmd_linear': _mut_pmd_linear,
+def _mut_cd_default_reference():
+    """beta2 converted back to a dispersion with the default 1550 nm reference instead of the fibre's own reference"""
+    import gnpy.core.elements as E
+    L.mutate_source(E.Fiber, 'chromatic_dispersion', 'ref_f = self.params.ref_frequency', 'ref_f = c / 1550e-9')
+
+
+MUTANTS = {'cd_default_reference': _mut_cd_default_reference, 'connector_dropped': _mut_connector_dropped, 'cd_assigned': _mut_cd_assigned, 'pmd_linear': _mut_pmd_linear,
            'lumped_twice': _mut_lumped_twice, 'latency_position': _mut_latency_position,
            'roadm_pdl_overwrite': _mut_roadm_pdl_overwrite, 'loss_table_misaligned': _mut_loss_table_misaligned,
            'latency_without_group_index': _mut_latency_without_group_index, 'alpha_memoised': _mut_alpha_memoised,
